@@ -1,0 +1,56 @@
+//! Observation hooks for the external verification harness.
+//!
+//! Compiled only with `--cfg blockwatch_verif`; never part of a normal build.
+use crate::language_parsers::Comment;
+use std::cell::RefCell;
+
+/// A comment as it was handed to the blocks parser.
+#[derive(Debug, Clone)]
+pub struct RecordedComment {
+    /// Index of the `parse_blocks_from_comments` call (since the last `take`) that consumed it.
+    pub group: usize,
+    pub start_byte: usize,
+    pub end_byte: usize,
+    pub start_line: usize,
+    pub start_character: usize,
+    pub end_line: usize,
+    pub end_character: usize,
+    pub text: String,
+}
+
+thread_local! {
+    static RECORDED: RefCell<(usize, Vec<RecordedComment>)> = const { RefCell::new((0, Vec::new())) };
+}
+
+/// Wraps the comments iterator so that every comment pulled from it is recorded.
+pub(crate) fn record<I: Iterator<Item = Comment>>(comments: I) -> impl Iterator<Item = Comment> {
+    let group = RECORDED.with(|r| {
+        let mut r = r.borrow_mut();
+        let group = r.0;
+        r.0 += 1;
+        group
+    });
+    comments.inspect(move |c| {
+        RECORDED.with(|r| {
+            r.borrow_mut().1.push(RecordedComment {
+                group,
+                start_byte: c.source_range.start,
+                end_byte: c.source_range.end,
+                start_line: c.position_range.start.line,
+                start_character: c.position_range.start.character,
+                end_line: c.position_range.end.line,
+                end_character: c.position_range.end.character,
+                text: c.comment_text.clone(),
+            })
+        })
+    })
+}
+
+/// Returns the comments recorded on this thread since the previous call.
+pub fn take() -> Vec<RecordedComment> {
+    RECORDED.with(|r| {
+        let mut r = r.borrow_mut();
+        r.0 = 0;
+        std::mem::take(&mut r.1)
+    })
+}
